@@ -209,14 +209,28 @@ def c12_3(c: Ctx) -> None:
     for name in WRAPPERS:
         u = c.unit(MOD, f'BaseEvent.{name}')
         calls = [call for cu, call in c.cg.callers(filt) if cu.key == u.key or (cu.outer is not None and cu.outer.key == u.key)]
+        if not calls and name == 'event_result':
+            # event_result() as "the first element of event_results_list()": the same single view, one hop further (event_results_list is checked in its own right)
+            lst = c.unit(MOD, 'BaseEvent.event_results_list')
+            calls = [call for cu, call in c.cg.callers(lst) if cu.key == u.key]
         if len(calls) != 1 or not isinstance(parent(calls[0]), ast.Await):
             c.fail(u, f'{len(calls)} calls of event_results_filtered', f'{name} is not a single view over event_results_filtered')
             continue
         call = calls[0]
         ps = u.params()
         bad = []
+        single_defs: dict[str, list[ast.AST]] = {}
+        for n in own_nodes(u.node):
+            if isinstance(n, (ast.Assign, ast.AnnAssign)) and n.value is not None:
+                for t in (n.targets if isinstance(n, ast.Assign) else [n.target]):
+                    if isinstance(t, ast.Name):
+                        single_defs.setdefault(t.id, []).append(n.value)
         for f in FLAGS:
             v = q.kw(call, f)
+            if v is None and not call.keywords and len(call.args) == len(FLAGS):
+                v = call.args[FLAGS.index(f)]  # the four flags passed by position, in the callee's order
+            if isinstance(v, ast.Name) and v.id not in ps and len(single_defs.get(v.id, [])) == 1:
+                v = single_defs[v.id][0]  # a local bound once: what is forwarded is its value
             if f not in ps:
                 bad.append(f'{f}: wrapper has no such parameter')
             elif v is None:
@@ -231,7 +245,10 @@ def c12_3(c: Ctx) -> None:
                     bad.append(f'include: forwarded as {U(v)[:60]}')
             elif U(v) != f:
                 bad.append(f'{f}: forwarded as {U(v)[:40]}')
-        if name.startswith('event_results_flat') and not isinstance(q.kw(call, 'include'), ast.Lambda):
+        inc_v = q.kw(call, 'include')
+        if isinstance(inc_v, ast.Name) and inc_v.id not in ps and len(single_defs.get(inc_v.id, [])) == 1:
+            inc_v = single_defs[inc_v.id][0]
+        if name.startswith('event_results_flat') and not isinstance(inc_v, ast.Lambda):
             bad.append('include: the dict/list shape test is not conjoined to the include filter (raise_if_none would be judged over results of the wrong shape)')
         if bad:
             c.fail(u, f'flag forwarding: {"; ".join(bad)}', f'{name} does not honour its flags exactly: ' + '; '.join(bad), node=call)
@@ -244,7 +261,22 @@ def c12_3(c: Ctx) -> None:
         # the value is built from the returned dict
         st = q.stmt_of(call)
         rv = st.targets[0].id if isinstance(st, ast.Assign) and isinstance(st.targets[0], ast.Name) else None
-        iters = [n for n in own_nodes_with_lambdas(u.node) if isinstance(n, ast.Call) and call_name(n) in ('values', 'items') and isinstance(n.func, ast.Attribute) and U(n.func.value) == rv]
+        # plain order-preserving copies of the returned dict stand for it: x = dict(rv) / rv.copy() / rv
+        views = {rv} if rv else set()
+        grew = True
+        while grew:
+            grew = False
+            for nm_, ds in single_defs.items():
+                if nm_ in views or len(ds) != 1:
+                    continue
+                d_ = ds[0]
+                src_ = d_.args[0] if isinstance(d_, ast.Call) and U(d_.func) == 'dict' and len(d_.args) == 1 and not d_.keywords else d_.func.value if isinstance(d_, ast.Call) and isinstance(d_.func, ast.Attribute) and d_.func.attr == 'copy' and not d_.args else d_
+                if isinstance(src_, ast.Name) and src_.id in views:
+                    views.add(nm_)
+                    grew = True
+        iters = [n for n in own_nodes_with_lambdas(u.node) if isinstance(n, ast.Call) and call_name(n) in ('values', 'items') and isinstance(n.func, ast.Attribute) and U(n.func.value) in views]
+        if name == 'event_result' and rv and not iters and call_name(call) == 'event_results_list':
+            iters = [call]  # the list returned by event_results_list() is already the values in handler order
         filt_ifs = [g_ for n in own_nodes_with_lambdas(u.node) if isinstance(n, (ast.ListComp, ast.DictComp, ast.GeneratorExp, ast.SetComp)) for g_ in n.generators if g_.ifs]
         if rv and iters and not filt_ifs and not any(isinstance(n, ast.SetComp) for n in own_nodes_with_lambdas(u.node)):
             c.ok(where(u), f'{name}: value built by iterating {rv}.{call_name(iters[0])}() in order, nothing filtered')
